@@ -1,4 +1,5 @@
 import numpy as np
+import fractions
 from dataclasses import dataclass, field, fields
 from typing import Union
 from math import isclose
@@ -26,6 +27,12 @@ class Fraction:
     @staticmethod
     def from_fraction(value: 'Fraction'):
         return Fraction(value.num, value.den)
+
+    @staticmethod
+    def from_float(value: float):
+        # closest rational number with a reasonably small denominator (0.5 -> 1:2)
+        ratio = fractions.Fraction(float(value)).limit_denominator()
+        return Fraction(ratio.numerator, ratio.denominator)
 
     def __init__(self, num: int = 0, den: int = 1):
         # ensure whole numbers
@@ -68,6 +75,8 @@ class Fraction:
         return Fraction(self.num*other.den-other.num*self.den, self.den*other.den)
 
     def __mul__(self, other):
+        if isinstance(other, (float, np.floating)):
+            other = Fraction.from_float(other)
         if isinstance(other, Fraction):
             return Fraction(self.num*other.num, self.den*other.den)
         elif isinstance(other, tuple):
@@ -76,6 +85,8 @@ class Fraction:
             return Fraction(self.num*other, self.den)
 
     def __truediv__(self, other):
+        if isinstance(other, (float, np.floating)):
+            other = Fraction.from_float(other)
         if isinstance(other, Fraction):
             return Fraction(self.num*other.den, self.den*other.num)
         elif isinstance(other, tuple):
